@@ -216,7 +216,7 @@ func (g *GuardEngine) requiredKey(a *Access, spec *GuardSpec) (string, bool) {
 		}
 		var fv *types.Var
 		for i := 0; i < st.NumFields(); i++ {
-			if st.Field(i).Name() == lf {
+			if canon(st.Field(i)) == lf {
 				fv = st.Field(i)
 			}
 		}
@@ -343,6 +343,42 @@ func (g *GuardEngine) Requires(fn *ssa.Function) []lockReq {
 		default:
 			return
 		}
+		// closures handed to a helper that only calls them (x.locked(func(){…})): they run with the caller's locks
+		// plus whatever the helper holds at the point where it calls its argument
+		if _, isDefer := ins.(*ssa.Defer); !isDefer {
+			for _, ic := range invokedClosureArgs(g.P, cc) {
+				creqs := g.Requires(ic.closure)
+				if len(creqs) == 0 {
+					continue
+				}
+				held := map[string]int{}
+				for k, m := range g.LE.HeldAt(ins) {
+					held[k] = m
+				}
+				for i, s := range ic.sites {
+					hh := map[string]int{}
+					for k, m := range g.LE.HeldAt(s) {
+						if tk, ok := translateKey(ic.helper, k, cc.Args); ok {
+							hh[tk] = m
+						}
+					}
+					if i == 0 {
+						for k, m := range hh {
+							if held[k] < m {
+								held[k] = m
+							}
+						}
+					}
+				}
+				for _, cr := range creqs {
+					if m, ok := held[cr.Key]; ok && m >= cr.Mode {
+						g.NProp++
+						continue
+					}
+					addReq(lockReq{Key: cr.Key, Mode: cr.Mode, Field: cr.Field, Pos: ins.Pos(), Origin: cr.Origin, Chain: append([]string{fmt.Sprintf("%s: %s hands a closure to %s, which calls it without %s", g.P.pos(ins.Pos()), name, fnName(ic.helper), cr.Key)}, cr.Chain...)})
+				}
+			}
+		}
 		var cf *ssa.Function
 		if c := cc.StaticCallee(); c != nil {
 			cf = c
@@ -458,6 +494,7 @@ type rootInfo struct {
 func computeRoots(p *Prog) *rootInfo {
 	ri := &rootInfo{roots: map[*ssa.Function]string{}}
 	staticCalled := map[*ssa.Function]bool{}
+	handedOver := map[*ssa.Function]bool{} // function values whose only role is to be called by a helper they are handed to
 	for _, fn := range p.Funcs {
 		allInstrs(fn, func(ins ssa.Instruction) {
 			switch x := ins.(type) {
@@ -501,8 +538,25 @@ func computeRoots(p *Prog) *rootInfo {
 				if cc != nil && cc.Value == *op {
 					continue // call position
 				}
+				if cc != nil {
+					// handed to a helper that only calls it: accounted for at this call site (see Requires)
+					handled := false
+					for _, ic := range invokedClosureArgs(p, cc) {
+						if ic.closure == f {
+							handled = true
+						}
+					}
+					if handled {
+						handedOver[f] = true
+						continue
+					}
+				}
 				if _, isMC := ins.(*ssa.MakeClosure); isMC {
 					continue // the MakeClosure itself; its uses are examined separately
+				}
+				if st, isSt := ins.(*ssa.Store); isSt && varargsOfPureInvoker(p, st, f) {
+					handedOver[f] = true
+					continue // an element of the variadic argument of a helper that only calls its arguments
 				}
 				if _, ok := ri.roots[f]; !ok {
 					ri.roots[f] = "function value escapes at " + p.pos(ins.Pos())
@@ -516,6 +570,9 @@ func computeRoots(p *Prog) *rootInfo {
 		}
 		if fn.Parent() != nil {
 			continue // closures: root only if escaping/go (handled above)
+		}
+		if handedOver[fn] {
+			continue // e.g. the bound-method wrapper of x.m handed to firstError(x.m, …): accounted for at that call
 		}
 		obj, _ := fn.Object().(*types.Func)
 		if obj == nil {
@@ -641,4 +698,154 @@ func discoverGuards(p *Prog) {
 			fmt.Printf("      unlocked: %s\n", u)
 		}
 	}
+}
+
+// ---- helpers that call a function argument under a lock: func (x *T) locked(f func()) { x.mu.Lock(); defer x.mu.Unlock(); f() } ----
+
+// paramInvocations returns, for parameter index i of h, the call instructions of h that invoke that parameter — or
+// ok=false when the parameter is also used in any other way (stored, passed on, started with go): then h is not a
+// pure invoker and a closure handed to it escapes.
+func paramInvocations(h *ssa.Function, i int) (sites []ssa.Instruction, ok bool) {
+	if h == nil || h.Blocks == nil || i >= len(h.Params) {
+		return nil, false
+	}
+	prm := h.Params[i]
+	if sl, isSlice := prm.Type().Underlying().(*types.Slice); isSlice {
+		// a (variadic) slice of functions that the helper only ranges over and calls: firstError(steps ...func() error)
+		if _, isFunc := sl.Elem().Underlying().(*types.Signature); !isFunc || prm.Referrers() == nil {
+			return nil, false
+		}
+		for _, ref := range *prm.Referrers() {
+			switch x := ref.(type) {
+			case *ssa.IndexAddr:
+				if x.Referrers() == nil {
+					return nil, false
+				}
+				for _, r2 := range *x.Referrers() {
+					ld, isLd := r2.(*ssa.UnOp)
+					if !isLd || ld.Referrers() == nil {
+						return nil, false
+					}
+					for _, r3 := range *ld.Referrers() {
+						if c, isCall := r3.(*ssa.Call); isCall && c.Call.Value == ssa.Value(ld) {
+							sites = append(sites, c)
+						} else if _, isDbg := r3.(*ssa.DebugRef); !isDbg {
+							return nil, false
+						}
+					}
+				}
+			case *ssa.Call:
+				if b, isB := x.Call.Value.(*ssa.Builtin); isB && (b.Name() == "len" || b.Name() == "cap") {
+					continue
+				}
+				return nil, false
+			case *ssa.DebugRef:
+			default:
+				return nil, false
+			}
+		}
+		return sites, len(sites) > 0
+	}
+	if _, isFunc := prm.Type().Underlying().(*types.Signature); !isFunc {
+		return nil, false
+	}
+	if prm.Referrers() == nil {
+		return nil, false
+	}
+	for _, ref := range *prm.Referrers() {
+		switch x := ref.(type) {
+		case *ssa.Call:
+			if x.Call.Value == ssa.Value(prm) && !x.Call.IsInvoke() {
+				sites = append(sites, x)
+				continue
+			}
+			return nil, false
+		case *ssa.DebugRef:
+			continue
+		default:
+			return nil, false
+		}
+	}
+	return sites, len(sites) > 0
+}
+
+// invokedClosureArgs: for a call of a pure invoker, the closures it is handed and the invocation sites inside it.
+func invokedClosureArgs(p *Prog, cc *ssa.CallCommon) (out []struct {
+	closure *ssa.Function
+	helper  *ssa.Function
+	sites   []ssa.Instruction
+}) {
+	h := cc.StaticCallee()
+	if h == nil || !p.Analysed(h) {
+		return nil
+	}
+	for j, a := range cc.Args {
+		var cls []*ssa.Function
+		if cl := closureOf(a); cl != nil {
+			cls = append(cls, cl)
+		} else if sl, isSl := a.(*ssa.Slice); isSl {
+			// variadic arguments: closures stored into the elements of a fresh array
+			if arr, isAlloc := sl.X.(*ssa.Alloc); isAlloc && arr.Referrers() != nil {
+				for _, ref := range *arr.Referrers() {
+					if ia, isIA := ref.(*ssa.IndexAddr); isIA && ia.Referrers() != nil {
+						for _, r2 := range *ia.Referrers() {
+							if st, isSt := r2.(*ssa.Store); isSt && st.Addr == ssa.Value(ia) {
+								if cl := closureOf(st.Val); cl != nil {
+									cls = append(cls, cl)
+								} else if mc, isMC := st.Val.(*ssa.MakeClosure); isMC {
+									if f, isF := mc.Fn.(*ssa.Function); isF {
+										cls = append(cls, f)
+									}
+								}
+							}
+						}
+					}
+				}
+			}
+		}
+		if len(cls) == 0 {
+			continue
+		}
+		if sites, ok := paramInvocations(h, j); ok {
+			for _, cl := range cls {
+				out = append(out, struct {
+					closure *ssa.Function
+					helper  *ssa.Function
+					sites   []ssa.Instruction
+				}{cl, h, sites})
+			}
+		}
+	}
+	return out
+}
+
+// varargsOfPureInvoker: st stores function value f into an element of an array whose only consumer is the variadic
+// argument of a call to a helper that merely invokes its arguments (accounted for at that call, see Requires).
+func varargsOfPureInvoker(p *Prog, st *ssa.Store, f *ssa.Function) bool {
+	ia, ok := st.Addr.(*ssa.IndexAddr)
+	if !ok {
+		return false
+	}
+	arr, ok := ia.X.(*ssa.Alloc)
+	if !ok || arr.Referrers() == nil {
+		return false
+	}
+	for _, ref := range *arr.Referrers() {
+		sl, isSl := ref.(*ssa.Slice)
+		if !isSl || sl.Referrers() == nil {
+			continue
+		}
+		for _, r2 := range *sl.Referrers() {
+			cc := instrCall(r2)
+			if cc == nil {
+				continue
+			}
+			for _, ic := range invokedClosureArgs(p, cc) {
+				if ic.closure == f {
+					return true
+				}
+			}
+		}
+	}
+	return false
 }
